@@ -225,6 +225,24 @@ def _data(spots):
 TOL = '0x1p-30'      # ~1e-9, relative-or-absolute (FloatInst.close)
 
 HELPERS = '''
+Notation centroid := (M_C12.centroid (O:=FOps)).
+Notation centroid1 := (M_C12.centroid1 (O:=FOps)).
+Notation center1 := (M_C12.center1 (O:=FOps)).
+Notation geo1 := (M_C12.geo1 (O:=FOps)).
+Notation rms1 := (M_C12.rms1 (O:=FOps)).
+Notation geometric_spot_radius := (M_C12.geometric_spot_radius (O:=FOps)).
+Notation rms_spot_radius := (M_C12.rms_spot_radius (O:=FOps)).
+Notation center_spots := (M_C12.center_spots (O:=FOps)).
+Notation ee_curve := (M_C12.ee_curve (O:=FOps)).
+Notation rayfan := (M_C12.rayfan (O:=FOps)).
+Notation pupil_err := (M_C12.pupil_err (O:=FOps)).
+Notation distortion := (M_C12.distortion (O:=FOps)).
+Notation distortion_Hy := (M_C12.distortion_Hy (O:=FOps)).
+Notation grid_distortion := (M_C12.grid_distortion (O:=FOps)).
+Notation field_curvature_T := (M_C12.field_curvature_T (O:=FOps)).
+Notation field_curvature_S := (M_C12.field_curvature_S (O:=FOps)).
+Notation op_rms_all := (M_C12.op_rms_all (O:=FOps)).
+Notation max_list := (OpsC12.max_list (O:=FOps)).
 Definition flat2 (l : list (list float)) : list float := List.concat l.
 Definition pairs (l : list (float * float)) : list float := flat_map (fun c => [fst c; snd c]) l.
 Definition optlist (o : option (list float)) (e : list float) : bool :=
@@ -634,7 +652,7 @@ def matches_finding(w, f):
 
 
 REPLAY_INF = {'object_thickness': float('inf'),
-              'surfaces': [{'type': 'standard', 'radius': 40.0, 'thickness': 5.0, 'is_stop': True, 'material': ['ideal', 1.6, 0.0]},
+              'surfaces': [{'type': 'standard', 'radius': 40.0, 'thickness': 5.0, 'is_stop': True, 'material': ['glass', 'N-SF11', 'schott']},
                            {'type': 'standard', 'radius': -60.0, 'thickness': 45.0, 'material': 'air'}],
               'aperture': ['EPD', 8.0], 'field_type': 'angle', 'fields': [[0.0, 0.0, 0.0, 0.0], [7.0, 0.0, 0.0, 0.0]],
               'wavelengths': [[0.48, False], [0.55, True], [0.65, False]], 'telecentric': False}
